@@ -1,9 +1,67 @@
 import OdcGeo.Model.C06
 namespace OdcGeo.C06.Drv
-open OdcGeo OdcGeo.IO
+open OdcGeo OdcGeo.IO OdcGeo.C06
+
+/-- payload rule shared with the harness: byte at global stream offset `o` is `(o*7+3) % 251` -/
+def payload (off n : Nat) : List Nat := (List.range n).map (fun i => ((off + i) * 7 + 3) % 251)
+def hdrBytes (n : Nat) : List Nat := (List.range n).map (fun i => 252 + i % 2)
+def ftrBytes (n : Nat) : List Nat := (List.range n).map (fun i => 254 + i % 2)
+
+/-- prefix encoding, `;`-separated tokens: `n` = node, `l:3,10` = leaf with chunk sizes (`l:` empty) -/
+partial def parseTree (toks : List String) (off cid : Nat) : Option (Tree Nat × List String × Nat × Nat) :=
+  match toks with
+  | [] => none
+  | "n" :: rest => do
+    let (l, rest1, off1, cid1) ← parseTree rest off cid
+    let (r, rest2, off2, cid2) ← parseTree rest1 off1 cid1
+    pure (.node l r, rest2, off2, cid2)
+  | tok :: rest =>
+    if tok.startsWith "l:" then do
+      let body := (tok.drop 2).toString
+      let sizes ← if body = "" then some [] else (body.splitOn ",").mapM parseNat?
+      let (chunks, off', cid') := sizes.foldl (fun (acc : List (List Nat × Int) × Nat × Nat) sz =>
+        (acc.1 ++ [(payload acc.2.1 sz, (acc.2.2 : Int))], acc.2.1 + sz, acc.2.2 + 1)) ([], off, cid)
+      pure (.leaf chunks, rest, off', cid')
+    else none
+
+def hex2 (n : Nat) : String :=
+  let d := "0123456789abcdef".toList
+  String.mk [d[(n / 16) % 16]!, d[n % 16]!]
+
+def fmtPart (p : Part Nat) : String := s!"{p.id}:" ++ String.join (p.data.map hex2)
+
+def insertSorted (p : Part Nat) : List (Part Nat) → List (Part Nat)
+  | [] => [p]
+  | q :: qs => if p.id < q.id || (p.id == q.id && fmtPart p ≤ fmtPart q) then p :: q :: qs
+               else q :: insertSorted p qs
+def sortParts (ps : List (Part Nat)) : List (Part Nat) := ps.foldr insertSorted []
+
+def fmtObs (o : List (Nat × Int)) : String := fmtList (fun (p : Nat × Int) => s!"{p.1}:{p.2}") o
+
+def fmtChunk (c : Chunk Nat) : String :=
+  s!"next={c.next} credits={c.credits} data={String.join (c.data.map hex2)} left={String.join (c.left.map hex2)} " ++
+  s!"parts={fmtList fmtPart c.parts} obs={fmtObs c.observed} final={fmtBool c.isFinal}"
 
 def run (args : List String) : Option String :=
   match args with
+  | ["run", hasW, minWrite, minPart, maxPart, spill, wpc, hdr, ftr, tree] => do
+    let hasW ← parseBool? hasW
+    let minWrite ← parseNat? minWrite; let minPart ← parseNat? minPart; let maxPart ← parseNat? maxPart
+    let spill ← parseNat? spill; let wpc ← parseNat? wpc
+    let hdr ← parseOpt? parseNat? hdr; let ftr ← parseOpt? parseNat? ftr
+    let (t, rest, _, _) ← parseTree (tree.splitOn ";") 0 0
+    if rest ≠ [] then none
+    let w : Option Writer := if hasW then some ⟨minWrite, minPart, maxPart⟩ else none
+    let cfg : Cfg := ⟨w, spill, wpc, ftr.isNone⟩
+    let mkH := hdr.map (fun n => fun (_ : List (Nat × Int)) => hdrBytes n)
+    let mkF := ftr.map (fun n => fun (_ : List (Nat × Int)) => ftrBytes n)
+    match C06.run cfg t mkH mkF with
+    | .error e => pure e.toStr
+    | .ok (out, ws, obs) =>
+      match out with
+      | .chunk c => pure s!"CHUNK {fmtChunk c} writes={fmtList fmtPart (sortParts ws)} seen={fmtObs obs}"
+      | .written _ fin =>
+        pure s!"WRITTEN writes={fmtList fmtPart (sortParts ws)} final={fmtList (fun (p : Part Nat) => toString p.id) fin} seen={fmtObs obs}"
   | _ => none
 
 end OdcGeo.C06.Drv
